@@ -6,8 +6,9 @@
        `stack` and `frames` of the active fiber and of every fiber waiting for it (fef17f0, 309b782, 6d7d827), leaving
        exc_handlers / return_ip / error_ip of the dead fibers;
      - `working_class_def` is set by DeclareClass and taken by DefineClass; an error in between leaves it set;
-     - a module is registered in `modules` BEFORE its body runs and gets `imported = true` only by FinishImport;
-       start_import answers a registered, not yet imported module with the "Circular dependency" ImportError;
+     - a module is registered in `modules` BEFORE its body runs and gets `imported = true` only by FinishImport; a failed
+       import leaves the entry behind (H5 `modules` counts it) until the next import of that path replaces it (367eb72);
+       start_import answers "Circular dependency" only for a module whose body is executing in the running fiber chain;
      - reset(): reset_stack, chunks := core_chunks, modules retain "main", main's attributes re-seeded; it touches
        neither handling_exception, working_class_def nor range_cache.
    DEFINITIONS ONLY (proofs: ReuseProofs.v). *)
@@ -130,6 +131,14 @@ Definition mset (k : modk) (b : bool) (r : modreg) : modreg :=
   | MMissing => mkR (r_good r) (r_bad r) (Some b) (r_syn r) (r_nest r)
   | MSyntax => mkR (r_good r) (r_bad r) (r_missing r) (Some b) (r_nest r)
   | MNest => mkR (r_good r) (r_bad r) (r_missing r) (r_syn r) (Some b)
+  end.
+Definition mdel (k : modk) (r : modreg) : modreg :=
+  match k with
+  | MGood => mkR None (r_bad r) (r_missing r) (r_syn r) (r_nest r)
+  | MThrow => mkR (r_good r) None (r_missing r) (r_syn r) (r_nest r)
+  | MMissing => mkR (r_good r) (r_bad r) None (r_syn r) (r_nest r)
+  | MSyntax => mkR (r_good r) (r_bad r) (r_missing r) None (r_nest r)
+  | MNest => mkR (r_good r) (r_bad r) (r_missing r) (r_syn r) None
   end.
 Definition gempty : globals := mkG None None None None None None None None None None None None None.
 Definition mempty : modreg := mkR None None None None None.
@@ -342,6 +351,10 @@ Definition module_code (m : modk) : list instr :=
   | _ => []
   end.
 
+(* is_loading_module: a frame of the module's body is in the running fiber chain.  In the mini-language no failing import
+   is caught, so a registered, not yet imported module is executing exactly when its loader call was made in THIS run *)
+Definition is_loading (m : modk) (s : mstate) : bool := existsb (modk_eqb m) (ms_loads s).
+
 (* one instruction; returns the new state and the code to run BEFORE the rest (module bodies) *)
 Definition step (i : instr) (s : mstate) : mstate * list instr :=
   let c := ms_c s in
@@ -422,19 +435,26 @@ Definition step (i : instr) (s : mstate) : mstate * list instr :=
       end
   | IRange k => (ms_with_c (m_build_range k c) s, [])
   | IStartImport m =>
-      match mget m (c_mods c) with
-      | Some true => (s, [])                               (* already imported: push the module *)
-      | Some false => (m_raise KImport (circular_msg m) s, [])
-      | None =>
-          let s1 := mkMS c (ms_out s) (ms_loads s ++ [m])%list (ms_exc s) (ms_st s) in
+      (* load: the host loader is asked, the source compiled (one chunk), self.module(path) registers the module,
+         its body is called *)
+      let load (c0 : carried) :=
+          let s1 := mkMS c0 (ms_out s) (ms_loads s ++ [m])%list (ms_exc s) (ms_st s) in
           match m with
           | MMissing => (m_raise KImport (missing_msg m) s1, [])
           | MSyntax => (m_raise KImport modcompile_msg s1, [])
           | _ =>
-            (* compile (one chunk), self.module(path) registers it, its body is called *)
-            let c1 := with_active (frames_add 1 (active c)) (with_mods (mset m false (c_mods c)) (m_add_chunks 1 c)) in
+            let c1 := with_active (frames_add 1 (active c0)) (with_mods (mset m false (c_mods c0)) (m_add_chunks 1 c0)) in
             (ms_with_c c1 s1, (module_code m ++ [IRet])%list)
-          end
+          end in
+      match mget m (c_mods c) with
+      | Some true => (s, [])                               (* already imported: push the module *)
+      | Some false =>
+          (* commit 367eb72: "Circular dependency" only while the module's body is executing in the running fiber
+             chain (is_loading_module); otherwise the entry is the leftover of an import that failed before
+             FinishImport: it is removed and the module loaded afresh *)
+          if is_loading m s then (m_raise KImport (circular_msg m) s, [])
+          else load (with_mods (mdel m (c_mods c)) c)
+      | None => load c
       end
   | IFinishImport m bind =>
       let c1 := with_mods (mset m true (c_mods c)) c in
